@@ -13,6 +13,8 @@
 # limitations under the License.
 
 
+import jax.numpy as jnp
+
 from genjax._src.core.compiler.interpreters.incremental import (
     Diff,
     NoChange,
@@ -66,7 +68,7 @@ class SwitchTrace(Generic[R], Trace[R]):
         Note:
             This method assumes that the first argument passed to the Switch was the index used for branch selection.
         """
-        return self.get_args()[0]
+        return self.gen_fn._clamp_index(self.get_args()[0])
 
     def get_args(self) -> tuple[Any, ...]:
         return self.args
@@ -146,6 +148,14 @@ class Switch(Generic[R], GenerativeFunction[R]):
     def _indices(self):
         return range(len(self.branches))
 
+    def _clamp_index(self, idx):
+        # Out-of-bounds indices are clamped, so that the branch which is reported and whose
+        # choices are visible is the branch that `jax.lax.switch` executes.
+        n = len(self.branches)
+        if isinstance(idx, int):
+            return min(max(idx, 0), n - 1)
+        return jnp.clip(idx, 0, n - 1)
+
     def __abstract_call__(self, *args) -> R:
         idx, args = args[0], args[1:]
         retvals = list(
@@ -163,7 +173,7 @@ class Switch(Generic[R], GenerativeFunction[R]):
         key: PRNGKey,
         args: tuple[Any, ...],
     ) -> SwitchTrace[R]:
-        idx, branch_args = args[0], args[1:]
+        idx, branch_args = self._clamp_index(args[0]), args[1:]
         self._check_args_match_branches(branch_args)
 
         fs = list(f.simulate for f in self.branches)
@@ -180,7 +190,7 @@ class Switch(Generic[R], GenerativeFunction[R]):
         sample: ChoiceMap,
         args: tuple[Any, ...],
     ) -> tuple[Score, R]:
-        idx, branch_args = args[0], args[1:]
+        idx, branch_args = self._clamp_index(args[0]), args[1:]
         self._check_args_match_branches(branch_args)
 
         fs = list(f.assess for f in self.branches)
@@ -194,7 +204,7 @@ class Switch(Generic[R], GenerativeFunction[R]):
         constraint: ChoiceMap,
         args: tuple[Any, ...],
     ) -> tuple[SwitchTrace[R], Weight]:
-        idx, branch_args = args[0], args[1:]
+        idx, branch_args = self._clamp_index(args[0]), args[1:]
         self._check_args_match_branches(branch_args)
 
         fs = list(f.generate for f in self.branches)
@@ -268,7 +278,7 @@ class Switch(Generic[R], GenerativeFunction[R]):
         self._check_args_match_branches(branch_argdiffs)
 
         primals = Diff.tree_primal(argdiffs)
-        new_idx = primals[0]
+        new_idx = self._clamp_index(primals[0])
 
         if Diff.tree_tangent(idx_diff) == NoChange:
             # If the index hasn't changed, perform edits on each branch.
